@@ -207,13 +207,15 @@ Lemma layout_count pl data ps : 0 < pl -> layout pl data ps ->
   /\ (ps <> [] -> 0 < lenN (last ps []) <= pl).
 Proof.
   intros Hpl H. induction H as [|p Hne Hle| p d ps Hl Hne H (IH1 & IH2 & IH3)].
-  - cbn. split; [reflexivity|]. split; [reflexivity|congruence].
+  - unfold lenN. cbn. split; [lia|]. split; [reflexivity|congruence].
   - unfold lenN at 2. cbn [length last]. split; [lia|]. split; [discriminate|].
     intros _. assert (lenN p <> 0) by (rewrite lenN_nil_iff; assumption). lia.
   - split; [|split; [discriminate|]].
     + rewrite lenN_app, IH1. destruct ps as [|q ps]; [congruence|].
       change (last (p :: q :: ps) []) with (last (q :: ps) []).
-      unfold lenN at 3 5. cbn [length]. nia.
+      replace (lenN (p :: q :: ps)) with (lenN (q :: ps) + 1) by (unfold lenN; cbn [length]; lia).
+      assert (1 <= lenN (q :: ps)) by (unfold lenN; cbn [length]; lia).
+      rewrite Hl. generalize dependent (lenN (q :: ps)). intros k; intros. nia.
     + intros _. destruct ps as [|q ps]; [congruence|].
       change (last (p :: q :: ps) []) with (last (q :: ps) []). apply IH3. discriminate.
 Qed.
@@ -231,6 +233,13 @@ Proof.
     rewrite N.div_add_l by lia. rewrite N.div_small by lia. lia.
 Qed.
 
+Lemma skipn_add {A} (l : list A) : forall m n, skipn n (skipn m l) = skipn (m + n) l.
+Proof.
+  induction l as [|a l IH]; intros m n.
+  - now rewrite !skipn_nil.
+  - destruct m; [reflexivity|]. cbn [skipn Nat.add]. apply IH.
+Qed.
+
 (* the i-th piece is data[i*pl : min((i+1)*pl, len)] *)
 Lemma pieces_nth pl : 0 < pl -> forall i data,
   nth i (pieces pl data) [] = takeN pl (dropN (N.of_nat i * pl) data).
@@ -240,7 +249,7 @@ Proof.
     now rewrite pieces_step.
   - destruct data as [|b data]; [cbn; now destruct (N.of_nat (S i) * pl)|].
     rewrite pieces_step by assumption. cbn [nth]. rewrite IH.
-    f_equal. rewrite !dropN_skipn, skipn_skipn. f_equal. lia.
+    f_equal. rewrite !dropN_skipn, skipn_add. f_equal. lia.
 Qed.
 
 (* ------------------------------------------------------------------ calcPieceSumsFromBytes *)
@@ -279,3 +288,277 @@ Theorem calc_bytes_nonpositive pl data : (pl <= 0)%Z -> calc_bytes sum pl data =
 Proof. intros H. unfold calc_bytes. destruct (Z.leb_spec pl 0); [reflexivity|lia]. Qed.
 
 End Sum.
+
+(* ------------------------------------------------------------------ calcPieceSums (stream) *)
+Definition content (r : reader) : list N := concat (rd_chunks r).
+
+Lemma bool_and_if (a b : bool) {A} (x y : A) : (if a && b then x else y) = (if a then (if b then x else y) else y).
+Proof. destruct a, b; reflexivity. Qed.
+
+Lemma copy_loop_spec : forall fuel size budget r, 0 < size -> (rd_measure r < fuel)%nat ->
+  exists r', copy_loop fuel size budget r =
+      Ok (takeN budget (content r), (if (lenN (content r) <? budget) && rd_fail r then RFail else RNil), r')
+    /\ content r' = dropN budget (content r) /\ rd_fail r' = rd_fail r
+    /\ (length (rd_chunks r') <= length (rd_chunks r))%nat.
+Proof.
+  induction fuel as [|fuel IH]; intros size budget r Hsize Hm; [lia|].
+  cbn [copy_loop]. destruct (N.eqb_spec budget 0) as [->|Hb].
+  - exists r. rewrite takeN_0, dropN_0. destruct (N.ltb_spec (lenN (content r)) 0); [lia|].
+    cbn [andb]. repeat split; lia.
+  - unfold rd_read, content in *. destruct r as [chunks fail]. cbn [rd_chunks rd_fail] in *.
+    destruct chunks as [|c t].
+    + exists (mkrd [] fail). cbn [concat rd_chunks rd_fail]. change (lenN (@nil N)) with 0.
+      destruct (N.ltb_spec 0 budget); [|lia]. cbn [andb takeN dropN].
+      destruct fail; repeat split; reflexivity.
+    + set (m := N.min size budget). assert (Hmpos : 0 < m) by lia.
+      set (got := takeN m c). set (left := dropN m c).
+      set (r1 := mkrd (match left with [] => t | _ :: _ => left :: t end) fail).
+      assert (Hc : c = got ++ left) by (symmetry; apply takeN_dropN).
+      assert (Hgot : lenN got <= budget) by (unfold got; rewrite lenN_takeN; lia).
+      assert (Hcont1 : concat (rd_chunks r1) = left ++ concat t).
+      { unfold r1. cbn [rd_chunks]. destruct left; reflexivity. }
+      assert (Hmeas : (rd_measure r1 < rd_measure (mkrd (c :: t) fail))%nat).
+      { unfold rd_measure. rewrite Hcont1. cbn [rd_chunks concat]. rewrite !app_length.
+        unfold r1. cbn [rd_chunks]. destruct left as [|x left'] eqn:El.
+        - cbn [length]. lia.
+        - cbn [length]. assert (lenN left = lenN c - m) by (unfold left; apply lenN_dropN).
+          rewrite El in H. unfold lenN in H. cbn [length] in H. lia. }
+      destruct (IH size (budget - lenN got) r1 Hsize ltac:(lia)) as (r' & E & Hc' & Hf' & Hl').
+      rewrite E. exists r'. cbn [concat]. rewrite Hcont1 in *. cbn [rd_fail] in *.
+      rewrite Hc at 1 2 3. rewrite <- !app_assoc.
+      rewrite (takeN_app_le budget got), (dropN_app_le budget got) by assumption.
+      rewrite (lenN_app got).
+      split; [|split; [assumption|split; [assumption|]]].
+      * f_equal. f_equal. f_equal.
+        destruct (N.ltb_spec (lenN (left ++ concat t)) (budget - lenN got)),
+                 (N.ltb_spec (lenN got + lenN (left ++ concat t)) budget); try reflexivity; lia.
+      * unfold r1 in Hl'. cbn [rd_chunks] in *. destruct left; cbn [length] in *; lia.
+Qed.
+
+Lemma copyN_spec fuel n r : 0 < n -> (rd_measure r < fuel)%nat ->
+  exists r', copyN fuel n r =
+      Ok (takeN n (content r),
+          (if lenN (content r) <? n then (if rd_fail r then RFail else REOF) else RNil), r')
+    /\ content r' = dropN n (content r) /\ rd_fail r' = rd_fail r
+    /\ (length (rd_chunks r') <= length (rd_chunks r))%nat.
+Proof.
+  intros Hn Hm. unfold copyN.
+  set (size := if n <? copy_bufsize then if n <? 1 then 1 else n else copy_bufsize).
+  assert (Hsize : 0 < size).
+  { unfold size, copy_bufsize. destruct (N.ltb_spec n 32768); [destruct (N.ltb_spec n 1)|]; lia. }
+  destruct (copy_loop_spec fuel size n r Hsize Hm) as (r' & E & Hc & Hf & Hl).
+  rewrite E. exists r'. split; [|auto]. f_equal. f_equal. f_equal.
+  rewrite lenN_takeN.
+  destruct (N.ltb_spec (lenN (content r)) n); cbn [andb].
+  - destruct (N.eqb_spec (N.min n (lenN (content r))) n); [lia|]. destruct (rd_fail r); reflexivity.
+  - destruct (N.eqb_spec (N.min n (lenN (content r))) n); [reflexivity|lia].
+Qed.
+
+Section SumStream.
+Variable sum : list N -> N.
+
+Lemma stream_loop_spec : forall fuel cfuel pl r,
+  0 < pl -> (rd_measure r < fuel)%nat -> (rd_measure r < cfuel)%nat ->
+  stream_loop sum fuel cfuel pl r =
+    if rd_fail r then Err else Ok (lenN (content r), map sum (pieces pl (content r))).
+Proof.
+  induction fuel as [|fuel IH]; intros cfuel pl r Hpl Hf Hcf; [lia|].
+  cbn [stream_loop].
+  destruct (copyN_spec cfuel pl r Hpl Hcf) as (r' & E & Hc & Hfail & Hl). rewrite E.
+  destruct (N.ltb_spec (lenN (content r)) pl) as [Hshort|Hlong].
+  - (* the blob ends inside this piece *)
+    rewrite takeN_all by lia. destruct (rd_fail r); [reflexivity|].
+    destruct (N.eqb_spec (lenN (content r)) 0) as [E0|E0].
+    + apply lenN_nil_iff in E0. rewrite E0. reflexivity.
+    + destruct (N.ltb_spec (lenN (content r)) pl); [|lia].
+      rewrite pieces_short; [reflexivity|assumption| |lia].
+      intros En. apply E0. now rewrite En.
+  - (* a full piece *)
+    assert (Hw : lenN (takeN pl (content r)) = pl) by (rewrite lenN_takeN; lia).
+    rewrite Hw. destruct (N.eqb_spec pl 0); [lia|]. rewrite N.ltb_irrefl.
+    assert (Hm' : (rd_measure r' < fuel)%nat /\ (rd_measure r' < cfuel)%nat).
+    { unfold rd_measure in *. fold (content r') (content r) in *. rewrite Hc.
+      pose proof (lenN_dropN pl (content r)) as Ed. unfold lenN in *. lia. }
+    rewrite (IH cfuel pl r' Hpl (proj1 Hm') (proj2 Hm')). rewrite Hfail, Hc.
+    destruct (rd_fail r); [reflexivity|].
+    destruct (content r) as [|b d] eqn:Ec; [unfold lenN in Hlong; cbn in Hlong; lia|].
+    rewrite (pieces_step pl b d Hpl). cbn [map]. f_equal. f_equal.
+    rewrite lenN_dropN. lia.
+Qed.
+
+Theorem calc_stream_spec pl r : (0 < pl)%Z ->
+  calc_stream sum pl r =
+    if rd_fail r then Err else Ok (lenZ (content r), map sum (pieces (Z.to_N pl) (content r))).
+Proof.
+  intros Hpl. unfold calc_stream. destruct (Z.leb_spec pl 0); [lia|].
+  rewrite stream_loop_spec by lia. destruct (rd_fail r); [reflexivity|].
+  f_equal. f_equal. unfold lenN, lenZ. lia.
+Qed.
+
+Theorem calc_stream_nonpositive pl r : (pl <= 0)%Z -> calc_stream sum pl r = Err.
+Proof. intros H. unfold calc_stream. destruct (Z.leb_spec pl 0); [reflexivity|lia]. Qed.
+
+(* the stream computation equals the slice computation on the concatenated reads, for
+   every way the reader cuts the blob into Read results, and for every piece length *)
+Theorem calc_stream_eq_bytes pl chunks :
+  calc_stream sum pl (mkrd chunks false) = calc_bytes sum pl (concat chunks).
+Proof.
+  destruct (Z.le_gt_cases pl 0) as [H|H].
+  - now rewrite calc_stream_nonpositive, calc_bytes_nonpositive.
+  - rewrite calc_stream_spec, calc_bytes_spec by lia. reflexivity.
+Qed.
+
+End SumStream.
+
+(* ------------------------------------------------------------------ NewMetaInfo / NewMetaInfoFromBytes / GetPieceLength *)
+Section Meta.
+Variable sum : list N -> N.
+Variable sha1 : list N -> list N.
+
+(* what both constructors are meant to produce *)
+Definition expected (d : list N) (data : list N) (pl : Z) : metainfo :=
+  assemble sha1 d (lenZ data) (map sum (pieces (Z.to_N pl) data)) pl.
+
+Theorem new_metainfo_bytes_spec d data pl : (0 < pl)%Z ->
+  new_metainfo_bytes sum sha1 d data pl = Ok (expected d data pl).
+Proof. intros H. unfold new_metainfo_bytes. now rewrite calc_bytes_spec. Qed.
+
+Theorem new_metainfo_stream_spec d r pl : (0 < pl)%Z ->
+  new_metainfo_stream sum sha1 d r pl = if rd_fail r then Err else Ok (expected d (content r) pl).
+Proof.
+  intros H. unfold new_metainfo_stream. rewrite calc_stream_spec by assumption.
+  destruct (rd_fail r); reflexivity.
+Qed.
+
+Theorem stream_eq_bytes d chunks pl :
+  new_metainfo_stream sum sha1 d (mkrd chunks false) pl = new_metainfo_bytes sum sha1 d (concat chunks) pl.
+Proof. unfold new_metainfo_stream, new_metainfo_bytes. now rewrite calc_stream_eq_bytes. Qed.
+
+Theorem rejects_nonpositive d r data pl : (pl <= 0)%Z ->
+  new_metainfo_stream sum sha1 d r pl = Err /\ new_metainfo_bytes sum sha1 d data pl = Err.
+Proof.
+  intros H. unfold new_metainfo_stream, new_metainfo_bytes.
+  now rewrite calc_stream_nonpositive, calc_bytes_nonpositive.
+Qed.
+
+Theorem failing_reader_rejected d chunks pl :
+  new_metainfo_stream sum sha1 d (mkrd chunks true) pl = Err.
+Proof.
+  destruct (Z.le_gt_cases pl 0) as [H|H].
+  - exact (proj1 (rejects_nonpositive d (mkrd chunks true) [] pl H)).
+  - rewrite new_metainfo_stream_spec by lia. reflexivity.
+Qed.
+
+Lemma wrap64_id z : (-9223372036854775808 <= z < 9223372036854775808)%Z -> wrap64 z = z.
+Proof. intros H. unfold wrap64. rewrite Z.mod_small; lia. Qed.
+
+Lemma nth_last {A} (l : list A) d : l <> [] -> nth (length l - 1) l d = last l d.
+Proof.
+  induction l as [|a l IH]; [congruence|]. intros _. destruct l as [|b l]; [reflexivity|].
+  change (last (a :: b :: l) d) with (last (b :: l) d). rewrite <- IH by discriminate.
+  cbn [length]. replace (S (S (length l)) - 1)%nat with (S (length l)) by lia.
+  replace (S (length l) - 1)%nat with (length l) by lia. reflexivity.
+Qed.
+
+Lemma lenZ_map {A B} (f : A -> B) l : lenZ (map f l) = lenZ l.
+Proof. unfold lenZ. now rewrite map_length. Qed.
+
+(* GetPieceLength on generated metainfo: the true length of piece i, 0 outside the range.
+   The int64 subtraction at metainfo.go:97 cannot wrap. *)
+Theorem get_piece_length_spec d data pl i :
+  (0 < pl < 9223372036854775808)%Z -> (lenZ data < 9223372036854775808)%Z ->
+  let ps := pieces (Z.to_N pl) data in
+  get_piece_length (expected d data pl) i =
+    if ((0 <=? i) && (i <? lenZ ps))%Z then lenZ (nth (Z.to_nat i) ps []) else 0%Z.
+Proof.
+  intros Hpl Hlen ps. unfold get_piece_length, expected, assemble.
+  cbn [mi_info i_sums i_len i_pl]. rewrite lenZ_map. fold ps.
+  assert (HplN : 0 < Z.to_N pl) by lia.
+  pose proof (pieces_layout (Z.to_N pl) data HplN) as HL. fold ps in HL.
+  destruct (Z.ltb_spec i 0); [destruct (Z.leb_spec 0 i); [lia|reflexivity]|].
+  destruct (Z.geb_spec i (lenZ ps)); cbn [orb].
+  { destruct (Z.ltb_spec i (lenZ ps)); [lia|]. now rewrite andb_false_r. }
+  destruct (Z.leb_spec 0 i); [|lia]. destruct (Z.ltb_spec i (lenZ ps)); [|lia]. cbn [andb].
+  destruct (layout_count _ _ _ HplN HL) as (Ecount & _ & Hlast).
+  assert (Hne : ps <> []). { intros E. rewrite E in *. unfold lenZ in *. cbn in *. lia. }
+  specialize (Hlast Hne).
+  destruct (Z.eqb_spec i (lenZ ps - 1)) as [Ei|Ei].
+  - replace (Z.to_nat i) with (length ps - 1)%nat by (unfold lenZ in *; lia).
+    rewrite nth_last by assumption.
+    assert (Hps : (1 <= length ps)%nat) by (destruct ps; [congruence|cbn [length]; lia]).
+    assert (E2 : (pl * i = Z.of_N (Z.to_N pl * (lenN ps - 1)))%Z).
+    { rewrite N2Z.inj_mul, Z2N.id by lia. f_equal. unfold lenZ, lenN in *. lia. }
+    assert (E3 : lenZ data = Z.of_N (lenN data)) by (unfold lenZ, lenN; lia).
+    rewrite (wrap64_id (pl * i)) by (rewrite E2; unfold lenZ, lenN in *; lia).
+    rewrite wrap64_id by (rewrite E2, E3; unfold lenZ, lenN in *; lia).
+    rewrite E2, E3, Ecount. unfold lenZ, lenN. lia.
+  - pose proof (layout_full _ _ _ HL (Z.to_nat i)) as Hfull.
+    rewrite <- (Z2N.id pl) at 1 by lia. unfold lenZ, lenN in *. rewrite <- Hfull by lia. lia.
+Qed.
+
+Lemma map_zrange {A} (f : Z -> Z) (g : A -> Z) d : forall (l : list A) a,
+  (forall k, (k < length l)%nat -> f (a + Z.of_nat k)%Z = g (nth k l d)) ->
+  map f (zrange a (length l)) = map g l.
+Proof.
+  induction l as [|x l IH]; intros a H; [reflexivity|].
+  cbn [length zrange map]. f_equal.
+  - specialize (H 0%nat ltac:(cbn; lia)). cbn in H. now rewrite Z.add_0_r in H.
+  - apply IH. intros k Hk. specialize (H (S k) ltac:(cbn; lia)). cbn [nth] in H. rewrite <- H. f_equal. lia.
+Qed.
+
+Lemma zrange_app a n m : zrange a (n + m) = zrange a n ++ zrange (a + Z.of_nat n) m.
+Proof.
+  revert a. induction n as [|n IH]; intros a.
+  - cbn. now rewrite Z.add_0_r.
+  - cbn [Nat.add zrange app]. f_equal. rewrite IH. f_equal. f_equal. lia.
+Qed.
+
+(* the per-piece lengths the API reports are exactly the lengths of the pieces *)
+Theorem get_piece_length_all d data pl :
+  (0 < pl < 9223372036854775808)%Z -> (lenZ data < 9223372036854775808)%Z ->
+  let ps := pieces (Z.to_N pl) data in
+  map (get_piece_length (expected d data pl)) (zrange 0 (length ps)) = map (fun p => lenZ p) ps.
+Proof.
+  intros Hpl Hlen ps. apply map_zrange with (d := []). intros k Hk.
+  rewrite get_piece_length_spec by assumption. fold ps. cbn [Z.add].
+  destruct (Z.leb_spec 0 (Z.of_nat k)); [|lia].
+  destruct (Z.ltb_spec (Z.of_nat k) (lenZ ps)); [|unfold lenZ in *; lia].
+  cbn [andb]. now rewrite Nat2Z.id.
+Qed.
+
+Lemma sum_lenZ_concat (ps : list (list N)) :
+  fold_right Z.add 0%Z (map (fun p => lenZ p) ps) = lenZ (concat ps).
+Proof.
+  induction ps as [|p ps IH]; [reflexivity|]. cbn [map fold_right concat]. rewrite IH.
+  unfold lenZ. rewrite app_length. lia.
+Qed.
+
+Theorem get_piece_length_total d data pl :
+  (0 < pl < 9223372036854775808)%Z -> (lenZ data < 9223372036854775808)%Z ->
+  fold_right Z.add 0%Z
+    (map (get_piece_length (expected d data pl)) (zrange 0 (length (pieces (Z.to_N pl) data)))) = lenZ data.
+Proof.
+  intros Hpl Hlen. rewrite get_piece_length_all by assumption. rewrite sum_lenZ_concat.
+  f_equal. eapply layout_concat. apply pieces_layout. lia.
+Qed.
+
+(* the observable vector GetPieceLength(-1 .. n+1) *)
+Lemma observed_gpl d data pl :
+  (0 < pl < 9223372036854775808)%Z -> (lenZ data < 9223372036854775808)%Z ->
+  let ps := pieces (Z.to_N pl) data in
+  map (get_piece_length (expected d data pl)) (zrange (-1) (length ps + 3))
+  = 0%Z :: map (fun p => lenZ p) ps ++ [0%Z; 0%Z].
+Proof.
+  intros Hpl Hlen ps.
+  replace (length ps + 3)%nat with (1 + (length ps + 2))%nat by lia.
+  rewrite zrange_app, map_app, zrange_app, map_app.
+  cbn [Z.add Z.of_nat zrange map app Pos.of_succ_nat Z.opp Z.pos_sub].
+  rewrite !get_piece_length_spec by assumption. fold ps.
+  rewrite (get_piece_length_all d data pl Hpl Hlen). fold ps.
+  cbn [Z.leb Z.compare andb]. f_equal. f_equal.
+  assert (E : (0 + Z.of_nat (length ps) = lenZ ps)%Z) by (unfold lenZ; lia). rewrite E.
+  destruct (Z.ltb_spec (lenZ ps) (lenZ ps)); [lia|]. rewrite andb_false_r.
+  destruct (Z.ltb_spec (lenZ ps + 1) (lenZ ps)); [lia|]. rewrite andb_false_r. reflexivity.
+Qed.
+
+End Meta.
